@@ -123,11 +123,15 @@ Choose ==
     /\ \/ mode' = "sign" /\ x' = <<>>
        \/ mode' = "pick" /\ x' \in [fam : {"der"}, r : IntDomain, i : {0}, d : {0}, z : {0}]
        \/ mode' = "pick" /\ x' \in [fam : {"verify"}, r : {<<>>}, i : 0..(Q + 1), d : {KeySeq[1]}, z : VerifyDigests]
+       \/ mode' = "pick" /\ x' \in [fam : {"pub"}, r : {<<>>}, i : 0..(P + 5), d : {0}, z : {0}]
        \/ mode' = "pick" /\ x' \in [fam : {"verify-classes"}, r : {<<>>}, i : 1..5, d : {KeySeq[1]}, z : VerifyDigests]
 Choose2 ==
     /\ mode = "pick"
     /\ UNCHANGED <<st, hist, blamed, usedK, onlySpec>>
     /\ \/ x.fam = "der" /\ mode' = "der" /\ x' \in [r : {x.r}, s : IntDomain, ht : HashTypes]
+       \/ x.fam = "pub" /\ mode' = "pub"       \* public-key octet strings of the toy curve: prefix, X, optional Y (one octet each)
+            /\ x' \in [enc : {<<pf, x.i>> : pf \in 0..7} \cup {<<pf, x.i, yy>> : pf \in {2, 3, 4, 6, 7}, yy \in 0..(P + 5)}
+                             \cup {<<4>>, <<>>, <<2, x.i, 0, 0>>}]
        \/ x.fam = "verify" /\ mode' = "verify"
             /\ x' \in [c : {"raw64", "der"}, d : {x.d}, z : {x.z}, r : {x.i}, s : 0..(Q + 1), onCurve : {TRUE}, ht : {1}]
        \/ x.fam = "verify-classes" /\ mode' = "verify"
@@ -213,6 +217,14 @@ ClassDenotes(c, r, s, ht) ==
          /\ d.r = Norm(r) /\ d.s = Norm(s)
          /\ (k # "strict") => ~IsStrictDER(e)
 DerClasses == mode = "der" => (\A c \in EncClasses : Applicable(c, x.r, x.s) => ClassDenotes(c, x.r, x.s, x.ht))
+
+\* ------------------------------------------------------------------ invariants, mode "pub"
+\* PubKeyOk accepts exactly the octet strings that SEC 1 produces for the points of the group (the infinite point has
+\* none); the curve equation mod p alone would also accept X + p, Y + p
+ToyCurveEq(enc) == IF Len(enc) = 2 THEN \E yy \in 0..(P - 1) : (yy * yy) % P = (enc[2] * enc[2] * enc[2] + 7) % P
+                   ELSE IF Len(enc) = 3 THEN (enc[3] * enc[3]) % P = (enc[2] * enc[2] * enc[2] + 7) % P ELSE FALSE
+EncodesPoint(enc) == \E k \in 1..(Q - 1) : \/ enc = <<2 + (Tab[k].y % 2), Tab[k].x>> \/ enc = <<4, Tab[k].x, Tab[k].y>>
+PubKeyExact == mode = "pub" => (PubKeyOk(x.enc, <<P>>, 1, ToyCurveEq(x.enc)) <=> EncodesPoint(x.enc))
 
 \* ------------------------------------------------------------------ invariants, mode "verify"
 \* the reference verifier: standard ECDSA on what the bytes denote
